@@ -1,64 +1,71 @@
 (* C27 -- Component round trip preserves structure at any nesting depth.  Statements only.
 
    Model (Model/Comp.v): [stream] = the inline payload sequence of wasmparser's parse_all, [parse] = the loop of
-   Component::parse_comp with its per-level stack, the pushes on the parent's stack, the run-length section log,
+   Component::parse_comp with its per-level stack (while the payloads of a nested body are skipped, a ModuleSection /
+   ComponentSection payload pushes and an End pops), the run-length section log,
    [replay] = Component::encode_comp; [roundtrip sf t = replay sf (parse t)], where [sf] is the table of
-   component-type items that wrappers.rs re-encodes differently (D28, D29; empty when there is none);
+   component-type items that wrappers.rs re-encodes differently (empty nowadays: D28 and D29 are repaired);
    [reenc_hit sf t]: some component-type item of t (any depth) has a different image in sf.
    Specification (Check/CheckComp.v): [eqv out t] -- equal normal forms: same kind sequence after merging adjacent
    item sections of one kind, same items in order, same modules / custom / start sections, same component-name
    entries, recursively for nested components.
    [wf t]: per component at most one start section, at most one component-name entry of kind 0 and no unknown
    name subsection (what the validator / binary format guarantee).
-   [known_D14 t]: some component strictly below the root has more nested bodies at depth >= 2 below it than its
-   closing chain absorbs (deep > chain), see CheckComp.v.
 
-   The full-strength statement "forall t, wf t -> roundtrip t equivalent to t" is FALSE of the faithful model
-   (C27_refuted_D14, C27_refuted_D14_panic, C27_refuted_D28); what holds, for every tree of any width, any
-   interleaving and ANY depth, is the statement outside D14 and for trees without a re-encoded item (D28 / D29). *)
+   The full-strength statement "forall t, wf t -> roundtrip t equivalent to t" holds of the model: for every tree of
+   any width, any interleaving and ANY depth.  (It used to be false: parse_comp skipped a nested body with a stack on
+   which the child had pushed one entry per direct child of its own, so that sections behind a body at depth >= 2
+   leaked into the parent -- D14, repaired by "fix: skip nested modules and components by following their nesting,
+   at any depth".  The two former refutation witnesses are kept below as positive examples.) *)
 From Coq Require Import List NArith Bool.
 Import ListNotations.
 From Orca Require Import Util Comp CheckComp CompProofs.
 
-(* The round trip of the model is exact outside D14: it yields the normal form of the input with the items
-   re-encoded -- for every tree, without a bound on depth or width. *)
+(* The round trip of the model is exact: it yields the normal form of the input with the items
+   re-encoded -- for every well-formed tree, without a bound on depth or width. *)
 Theorem C27_roundtrip_exact :
   forall (sf : list (N * N)) (t : list node),
-    wf t = true -> known_D14 t = false -> roundtrip sf t = Some (expect_body sf t).
+    wf t = true -> roundtrip sf t = Some (expect_body sf t).
 Proof. exact roundtrip_exact. Qed.
 Print Assumptions C27_roundtrip_exact.
 
-(* Hence: outside D14 and without an item that wrappers.rs re-encodes differently (D28, D29), parse-then-encode
-   yields a tree equivalent to the input. *)
+(* Hence: without an item that wrappers.rs re-encodes differently (there is none since the repair of D28 and D29: the
+   harness supplies the empty table, for which [reenc_hit [] t = false] whatever t is), parse-then-encode yields a
+   tree equivalent to the input, at any nesting depth. *)
 Theorem C27_roundtrip :
   forall (sf : list (N * N)) (t : list node),
-    wf t = true -> known_D14 t = false -> reenc_hit sf t = false ->
+    wf t = true -> reenc_hit sf t = false ->
     exists out, roundtrip sf t = Some out /\ eqv out t.
 Proof. exact roundtrip_equiv. Qed.
 Print Assumptions C27_roundtrip.
 
-(* The depth-bounded form of DESIGN.md section 5: nesting depth <= 2 (root = 0) is always outside D14. *)
+(* The depth-bounded form of DESIGN.md section 5 (nesting depth <= 2, root = 0): now merely an instance of
+   C27_roundtrip, kept under its name. *)
 Theorem C27_depth2 :
   forall (sf : list (N * N)) (t : list node),
     wf t = true -> (depth t <= 2)%nat -> reenc_hit sf t = false ->
     exists out, roundtrip sf t = Some out /\ eqv out t.
-Proof. intros sf t Hw Hd. apply roundtrip_equiv; [exact Hw|apply d14_needs_depth3; exact Hd]. Qed.
+Proof. intros sf t Hw _. apply roundtrip_equiv. exact Hw. Qed.
 Print Assumptions C27_depth2.
 
-(* The unrestricted statement is refuted by the smallest witness: a section follows the only child of a
-   component that has a grandchild -- (component (component (component (core module)) (type ..))). *)
-Theorem C27_refuted_D14 :
-  exists t, wf t = true /\ known_D14 t = true /\ reenc_hit [] t = false /\
-            exists out, roundtrip [] t = Some out /\ ~ eqv out t.
-Proof. exists witness_D14. exact roundtrip_refuted_D14. Qed.
-Print Assumptions C27_refuted_D14.
+(* The smallest witness of the former defect D14 -- a section follows the only child of a component that has a
+   grandchild: (component (component (component (core module)) (type ..))), whose type section used to be duplicated
+   into the root -- now round-trips to an equivalent tree. *)
+Theorem C27_former_D14_witness_holds :
+  let t := [NComp [NComp [NMod 1 []]; NItems ICompType [2]]]%N in
+  wf t = true /\ depth t = 3%nat /\ reenc_hit [] t = false /\
+  exists out, roundtrip [] t = Some out /\ eqv out t.
+Proof. exact roundtrip_former_D14_witness. Qed.
+Print Assumptions C27_former_D14_witness_holds.
 
-(* A D14 leak can also end in a panic: the child's start section leaks into a parent that has its own, and
-   encode_comp asserts start_section.len() == 1. *)
-Theorem C27_refuted_D14_panic :
-  exists t, wf t = true /\ known_D14 t = true /\ roundtrip [] t = None.
-Proof. exists witness_D14_panic. exact roundtrip_refuted_D14_panic. Qed.
-Print Assumptions C27_refuted_D14_panic.
+(* The witness on which a D14 leak ended in a panic -- the child's start section leaked into a parent that has its
+   own, and encode_comp asserts start_section.len() == 1 -- now round-trips to an equivalent tree as well. *)
+Theorem C27_former_D14_panic_witness_holds :
+  let t := [NItems IImport [1]; NComp [NItems IImport [2]; NComp [NMod 3 []]; NStart 4]; NStart 5]%N in
+  wf t = true /\ depth t = 3%nat /\ reenc_hit [] t = false /\
+  exists out, roundtrip [] t = Some out /\ eqv out t.
+Proof. exact roundtrip_former_D14_panic_witness. Qed.
+Print Assumptions C27_former_D14_panic_witness_holds.
 
 (* The re-encoding table [sf] (component-type item |-> the item as wrappers.rs re-encodes it) used to describe two
    genuine defects, D28 (payload-less stream inside a type declaration -> future) and D29 (explicit core rec group
@@ -66,14 +73,14 @@ Print Assumptions C27_refuted_D14_panic.
    supplies the empty table, and a deviation of the real output is a model/implementation mismatch.  The statement
    below records why such a deviation matters: an item that is re-encoded differently breaks the round trip. *)
 Theorem C27_a_reencoded_item_breaks_the_round_trip :
-  exists sf t, wf t = true /\ known_D14 t = false /\ reenc_hit sf t = true /\
+  exists sf t, wf t = true /\ reenc_hit sf t = true /\
                exists out, roundtrip sf t = Some out /\ ~ eqv out t.
 Proof. exists [(1, 2)]%N, [NItems ICompType [1%N]]. exact roundtrip_refuted_D28. Qed.
 Print Assumptions C27_a_reencoded_item_breaks_the_round_trip.
 
 (* Whenever the implementation's observed output agrees with the model (correspondence check) on a case inside the
-   domain and outside every known class (D14), and the validator accepts the output, the independent property checker
-   accepts it. *)
+   domain and outside every known class (none is left: [classes27] only reports re-encoded items, and the table is
+   empty), and the validator accepts the output, the independent property checker accepts it. *)
 Theorem C27_checker_sound :
   forall c : ccase,
     agree c = true -> domain27 c = true -> classes27 c = [] -> obs_valid c = true -> holds27 c = true.
@@ -85,16 +92,20 @@ Theorem C27_eqvb_reflects : forall a b, eqvb a b = true <-> eqv a b.
 Proof. exact eqvb_eqv. Qed.
 Print Assumptions C27_eqvb_reflects.
 
-(* non-vacuity: a depth-3 tree (harmless: nothing follows the last child) with adjacent item sections of one kind,
-   a name section in the middle, a start section and nested modules satisfies all hypotheses, and its round trip
-   is the expected normal form *)
+(* non-vacuity: a depth-4 tree with adjacent item sections of one kind, a name section in the middle, a start section,
+   nested modules, and sections that FOLLOW a nested component which itself has nested bodies (the shape that used
+   to leak) satisfies all hypotheses, and its round trip is the expected normal form *)
 Example C27_nonvacuous :
   let t := [NItems IImport [1]; NItems IImport [2; 3]; NNames [(9, 4); (0, 5)]; NItems IAlias [6];
-            NComp [NMod 7 [20]; NItems ICoreInst [8]; NItems ICoreInst []; NComp [NCustom 9; NComp [NMod 10 []]]];
+            NComp [NMod 7 [20]; NItems ICoreInst [8]; NItems ICoreInst [];
+                   NComp [NCustom 9; NComp [NMod 10 []; NMod 14 []]; NItems ICompType [15]];
+                   NItems IExport [16]; NStart 17];
             NStart 11; NMod 12 []; NMod 13 []]%N in
-  wf t = true /\ known_D14 t = false /\ reenc_hit [] t = false /\ depth t = 4%nat /\
+  wf t = true /\ reenc_hit [] t = false /\ depth t = 4%nat /\
   roundtrip [] t
   = Some [NItems IImport [1; 2; 3]; NItems IAlias [6];
-          NComp [NMod 7 []; NItems ICoreInst [8]; NComp [NCustom 9; NComp [NMod 10 []; NNames []]; NNames []]; NNames []];
+          NComp [NMod 7 []; NItems ICoreInst [8];
+                 NComp [NCustom 9; NComp [NMod 10 []; NMod 14 []; NNames []]; NItems ICompType [15]; NNames []];
+                 NItems IExport [16]; NStart 17; NNames []];
           NStart 11; NMod 12 []; NMod 13 []; NNames [(0, 5); (9, 4)]]%N.
 Proof. vm_compute. repeat split; reflexivity. Qed.
